@@ -1,12 +1,13 @@
 """C05 — names resolve lexically (proof + correspondence with name_resolution.rs)."""
 import os, re
 import vlib
+from props import lowertie
 
 SCOPE_ERR = re.compile(r"Unresolved name|not found in environment")
 
 def run(ctx):
     ctx.extract()
-    lean_ok = ctx.build_lean(["GomlVerif.Props.C05"])
+    lean_ok = ctx.build_lean(["GomlVerif.Props.C05", "GomlVerif.Props.Lower"])
     if not ctx.build_harness():
         return ctx.finish("proof", {"evaluations": 0, "distinct_nontrivial": 0}, [], "lake build")
     extra = ["--file", ctx.replay_file] if getattr(ctx, "replay_file", None) else []
@@ -109,6 +110,26 @@ def run(ctx):
             elif acc.startswith("err:") and "Unresolved name" not in acc and not corpus:
                 ctx.report({"oracle": "accept", "kind": "ill-scoped-without-unresolved-name-diagnostic"},
                            "a use with no binder in scope is rejected without an unresolved-name diagnostic", payload)
+    # CST→AST lowering (round 11): every file of every generated / catalogue program, lowered by Model/Lower.lean from
+    # the real tree, must be the real ast::File — `conOk*` is then a theorem (Props/Lower.lean), not a per-case check
+    lower_cov = {}
+    if cases and not getattr(ctx, "replay_file", None):
+        ltexts = []
+        for r in cases:
+            src = vlib.unesc(r[6])
+            parts, cur = [], None
+            if any(l.startswith("//// file: ") for l in src.split("\n")):
+                for line in src.splitlines(keepends=True):
+                    if line.startswith("//// file: "):
+                        cur = [line[len("//// file: "):].strip(), ""]
+                        parts.append(cur)
+                    elif cur is not None:
+                        cur[1] += line
+            else:
+                parts = [["main.gom", src]]
+            for rel, text in parts:
+                ltexts.append((f"c05:{r[0]}:{rel}", "c05-programs", text))
+        lower_cov = lowertie.run(ctx, ["names"], ltexts)
     # shrink: keep the smallest failing program first
     ctx.violations.sort(key=lambda v: len(v[2].get("src", "")))
     cov = {
@@ -126,7 +147,9 @@ def run(ctx):
         "samples": samples,
         "resolution_maps_equal": n_eq, "well_scoped_cases": n_scoped, "ill_scoped_cases": n_ill,
         "corpus_cases": n_corpus, "skipped_unparsable": len(skipped), "generator_features": feats,
-        "impl_oracle_failures": len(ctx.violations), "model_diffs": len(cases) - n_eq,
+        "lowering(Model/Lower.lean on the real CST)": lower_cov,
+        "impl_oracle_failures": len(ctx.violations),
+        "model_diffs": (len(cases) - n_eq) + (lower_cov.get("lower_texts", 0) - lower_cov.get("lower_model_equals_real", 0)),
     }
     ctx.assumptions += [
         "the scope tree sent to the model is the real ast::File produced by the repository's parser and lowering (harness/src/c05.rs)",
